@@ -421,6 +421,18 @@ func symBinop(op token.Token, a, b value) value {
 	}
 	x, y := asBV8(a), asBV8(b)
 	switch op {
+	case token.ADD:
+		return mkBV8("bvadd", x, y)
+	case token.SUB:
+		return mkBV8("bvsub", x, y)
+	case token.AND:
+		return mkBV8("bvand", x, y)
+	case token.OR:
+		return mkBV8("bvor", x, y)
+	case token.XOR:
+		return mkBV8("bvxor", x, y)
+	case token.AND_NOT:
+		return mkBV8("bvand", x, mkBV8("bvxor", y, bvConst(0xff, 8)))
 	case token.EQL:
 		return boolVal(mkEq(x, y))
 	case token.NEQ:
